@@ -34,7 +34,7 @@ Theorem C07_evict_rule : forall F cid slot H t g H2 fs',
   tf_abort (gtf (t_uid t) H) || (Nat.eqb (t_uid t) (c_task0 (gcmd cid H)) && was_aborted cid H) = false ->
   g = length (woken H) ->
   rpoll F cid (WCmd cid slot g) (t_fs t)
-        (mkH (chans H) (tfl H) (cmds H) (woken H ++ [false]) (xready H) (aborted H) (log H)) = Some (Pend fs', H2) ->
+        (mkH (chans H) (tfl H) (cmds H) (woken H ++ [false]) (xready H) (aborted H) (log H) (hout H)) = Some (Pend fs', H2) ->
   let H3 := ucmd cid (slab_set slot (mkT (t_uid t) fs')) H2 in
   rrun_task (step_funs F) cid slot H =
     Some (if getd false g (woken H3) || holds g H3 then (Suspended, H3) else (Cancelled, note B_Evict H3)).
